@@ -78,6 +78,7 @@ import (
 	"go/ast"
 	"go/constant"
 	"go/types"
+	"strings"
 
 	"golang.org/x/tools/go/cfg"
 	"golang.org/x/tools/go/packages"
@@ -112,6 +113,9 @@ type c16Env struct {
 	// (then R-C16-5 must hold for that acceptance to be sound)
 	discRelied bool
 
+	anchors  map[string]*flow.Func // role-resolved functions (c16_roles.go)
+	writeChF *types.Var            // Client.writeCh
+
 	// supersession marks (c16_supersede.go)
 	markVals   map[*types.Var]constant.Value
 	markRelied map[*types.Var]bool
@@ -133,6 +137,7 @@ func c16NewEnv(c *core.Ctx) *c16Env {
 	e.cleanFlagF = structField(c, mq, "SessionInfo", "CleanFlag")
 	e.httpSessF = structField(c, mq, "HTTPSessions", "Sessions")
 	e.httpIDF = structField(c, mq, "HTTPSession", "SessionID")
+	e.writeChF = structField(c, mq, "Client", "writeCh")
 	for _, v := range []*types.Var{e.clientsF, e.brokerDoneF, e.sessionF, e.cidF, e.sessMapF, e.infoCIDF, e.topicsF, e.cleanFlagF, e.httpSessF, e.httpIDF} {
 		if v == nil {
 			return nil
@@ -202,7 +207,108 @@ func c16Recv(call *ast.CallExpr) ast.Expr {
 	if sel, ok := ast.Unparen(call.Fun).(*ast.SelectorExpr); ok {
 		return sel.X
 	}
+	if id, ok := ast.Unparen(call.Fun).(*ast.Ident); ok {
+		// call through a local holding a method value (`del := b.deleteSession; del(id)`)
+		if x := c16MethodValues[id]; x != nil {
+			return x
+		}
+	}
 	return nil
+}
+
+// c16MethodValues maps the identifier in call position (`del` in `del(id)`) of a local assigned
+// exactly once from a method value `x.m` to x; filled by c16FnOK, which every rule calls (through
+// c16Is) before it asks for the receiver.
+var c16MethodValues = map[*ast.Ident]ast.Expr{}
+
+// c16FnOK resolves the callee of call like f.Callee, and additionally through a local variable
+// that is assigned exactly once from a function name or a method value.
+func c16FnOK(f *flow.Func, call *ast.CallExpr) (*types.Func, bool) {
+	if fo, ok := f.Callee(call).(*types.Func); ok {
+		return fo, true
+	}
+	id, ok := ast.Unparen(call.Fun).(*ast.Ident)
+	if !ok {
+		return nil, false
+	}
+	v, ok := f.Info.Uses[id].(*types.Var)
+	if !ok || v.IsField() || v.Parent() == nil || v.Parent() == v.Pkg().Scope() {
+		return nil, false
+	}
+	// single definition in the file-level function enclosing the use
+	var rhs []ast.Expr
+	for _, file := range f.Pkg.Syntax {
+		if file.Pos() <= id.Pos() && id.Pos() < file.End() {
+			ast.Inspect(file, func(n ast.Node) bool {
+				switch s := n.(type) {
+				case *ast.AssignStmt:
+					if len(s.Lhs) == len(s.Rhs) {
+						for i, l := range s.Lhs {
+							if lid, ok := l.(*ast.Ident); ok && (f.Info.Defs[lid] == v || f.Info.Uses[lid] == v) {
+								rhs = append(rhs, s.Rhs[i])
+							}
+						}
+					}
+				case *ast.ValueSpec:
+					for i, nm := range s.Names {
+						if f.Info.Defs[nm] == v && i < len(s.Values) {
+							rhs = append(rhs, s.Values[i])
+						}
+					}
+				}
+				return true
+			})
+		}
+	}
+	if len(rhs) != 1 {
+		return nil, false
+	}
+	switch r := ast.Unparen(rhs[0]).(type) {
+	case *ast.SelectorExpr:
+		if s := f.Info.Selections[r]; s != nil && s.Kind() == types.MethodVal {
+			if fo, ok := s.Obj().(*types.Func); ok {
+				c16MethodValues[id] = r.X
+				return fo, true
+			}
+		}
+		if fo, ok := f.Info.Uses[r.Sel].(*types.Func); ok {
+			return fo, true
+		}
+	case *ast.Ident:
+		if fo, ok := f.Info.Uses[r].(*types.Func); ok {
+			return fo, true
+		}
+	}
+	return nil, false
+}
+
+// c16Is is calleeIs with c16FnOK's resolution.
+func c16Is(f *flow.Func, call *ast.CallExpr, names ...string) bool {
+	if calleeIs(f, call, names...) {
+		return true
+	}
+	fo, ok := c16FnOK(f, call)
+	if !ok {
+		return false
+	}
+	full := strings.ReplaceAll(fo.FullName(), Mod, "")
+	for _, n := range names {
+		if full == n {
+			return true
+		}
+	}
+	return false
+}
+
+// c16CallsTo is callsTo with c16FnOK's resolution.
+func c16CallsTo(f *flow.Func, n ast.Node, lits bool, names ...string) []*ast.CallExpr {
+	var out []*ast.CallExpr
+	for _, c := range calls(n, lits) {
+		if c16Is(f, c, names...) {
+			out = append(out, c)
+		}
+	}
+	return out
 }
 
 // c16PtrTo reports whether t is *mqttproxy.<name>.
@@ -264,7 +370,7 @@ func (e *c16Env) isCid(f *flow.Func, x ast.Expr, depth int) bool {
 			}
 		}
 	case *ast.CallExpr:
-		return calleeIs(f, t, "(*"+mq+".Client).ClientID")
+		return c16Is(f, t, "(*"+mq+".Client).ClientID")
 	case *ast.Ident:
 		if depth > 2 {
 			return false
@@ -281,6 +387,35 @@ func (e *c16Env) isCid(f *flow.Func, x ast.Expr, depth int) bool {
 		return true
 	}
 	return false
+}
+
+// isCidReach is isCid for an expression that may sit in any function of the package (locals are
+// resolved in the function that declares them).
+func (e *c16Env) isCidReach(f *flow.Func, x ast.Expr) bool {
+	if e.isCid(f, x, 0) {
+		return true
+	}
+	o := c16Obj(f, x)
+	if o == nil {
+		return false
+	}
+	for _, d := range e.decls {
+		if d.Body.Pos() <= o.Pos() && o.Pos() < d.Body.End() {
+			return e.isCid(flow.NewFunc(e.pkg, d), x, 0)
+		}
+	}
+	return false
+}
+
+// objOf returns the types object of a resolved function.
+func (e *c16Env) objOf(f *flow.Func) types.Object {
+	if f == nil {
+		return nil
+	}
+	if fd, ok := f.Node.(*ast.FuncDecl); ok {
+		return e.pkg.TypesInfo.Defs[fd.Name]
+	}
+	return nil
 }
 
 // c16RealExit filters the engine's spurious exits (blocking select, see file header) and panics.
@@ -360,12 +495,18 @@ func c16(c *core.Ctx) string {
 
 func c16SetSession(e *c16Env) {
 	c := e.c
-	f := fn(c, mq, "Broker", "setSession")
+	f := e.anchor("chooser")
 	if f == nil {
 		return
 	}
-	cons := fname(mq, "Broker", "setSession")
-	gets := callsTo(f, f.Body, false, "(*"+mq+".SessionManager).get")
+	cons := e.fnameOf(f)
+	getF, newF := e.anchor("sessionGet"), e.anchor("sessionNew")
+	var gets []*ast.CallExpr
+	for _, call := range calls(f.Body, false) {
+		if e.callTo(f, call, getF) {
+			gets = append(gets, call)
+		}
+	}
 	if !c.RequireCount("R-C16-1", "sessMgr.get call sites in setSession", len(gets), 1) {
 		return
 	}
@@ -400,7 +541,7 @@ func c16SetSession(e *c16Env) {
 				cKeys = c16AddKey(cKeys, k)
 			}
 		case *ast.CallExpr:
-			if calleeIs(f, x, "(*"+mq+".Session).cleanSession") && c16Obj(f, c16Recv(x)) == prevObj {
+			if c16Is(f, x, "(*"+mq+".Session).cleanSession") && c16Obj(f, c16Recv(x)) == prevObj {
 				cKeys = c16AddKey(cKeys, f.CallKey(x))
 			}
 		}
@@ -413,7 +554,7 @@ func c16SetSession(e *c16Env) {
 	prevTopics := map[types.Object]bool{}
 	ast.Inspect(f.Body, func(n ast.Node) bool {
 		if as, ok := n.(*ast.AssignStmt); ok && len(as.Rhs) == 1 && len(as.Lhs) >= 1 {
-			if call, ok := ast.Unparen(as.Rhs[0]).(*ast.CallExpr); ok && calleeIs(f, call, "(*"+mq+".Session).allSubscribes") && c16Obj(f, c16Recv(call)) == prevObj {
+			if call, ok := ast.Unparen(as.Rhs[0]).(*ast.CallExpr); ok && c16Is(f, call, "(*"+mq+".Session).allSubscribes") && c16Obj(f, c16Recv(call)) == prevObj {
 				if o := c16Obj(f, as.Lhs[0]); o != nil {
 					prevTopics[o] = true
 				}
@@ -424,7 +565,7 @@ func c16SetSession(e *c16Env) {
 	isNewExpr := func(r ast.Expr) bool {
 		r = ast.Unparen(r)
 		if call, ok := r.(*ast.CallExpr); ok {
-			return calleeIs(f, call, "(*"+mq+".SessionManager).newSessionFromConn")
+			return e.callTo(f, call, newF)
 		}
 		if o := c16Obj(f, r); o != nil && o != prevObj {
 			rhs := c16DefRHS(f, o)
@@ -433,7 +574,7 @@ func c16SetSession(e *c16Env) {
 			}
 			for _, x := range rhs {
 				call, ok := ast.Unparen(x).(*ast.CallExpr)
-				if !ok || !calleeIs(f, call, "(*"+mq+".SessionManager).newSessionFromConn") {
+				if !ok || !e.callTo(f, call, newF) {
 					return false
 				}
 			}
@@ -441,24 +582,98 @@ func c16SetSession(e *c16Env) {
 		}
 		return false
 	}
+	// a chooser that returns the session instead of assigning it: its caller must assign the
+	// result to Client.session
+	returnsSession := false
+	var namedResult *ast.Ident
+	if fd, ok := f.Node.(*ast.FuncDecl); ok && fd.Type.Results != nil && len(fd.Type.Results.List) == 1 {
+		if tv, ok := f.Info.Types[fd.Type.Results.List[0].Type]; ok && tv.Type != nil && c16PtrTo(tv.Type, "Session") {
+			returnsSession = true
+			if names := fd.Type.Results.List[0].Names; len(names) == 1 {
+				namedResult = names[0]
+			}
+		}
+	}
+	if returnsSession {
+		assigned := false
+		eachFunc(c, func(pkg *packages.Package, fd *ast.FuncDecl) {
+			if pkg != e.pkg {
+				return
+			}
+			g := flow.NewFunc(pkg, fd)
+			ast.Inspect(fd.Body, func(n ast.Node) bool {
+				if as, ok := n.(*ast.AssignStmt); ok && len(as.Lhs) == len(as.Rhs) {
+					for i, l := range as.Lhs {
+						if call, ok := ast.Unparen(as.Rhs[i]).(*ast.CallExpr); ok && c16Sel(g, l, e.sessionF) && e.callTo(g, call, f) {
+							assigned = true
+						}
+					}
+				}
+				return true
+			})
+		})
+		c.Check(assigned, "R-C16-1", cons+"|chosen session becomes the client's session", pos(c, f.Body), "the result of the chooser is assigned to Client.session", "the session chosen for the connection is never assigned to Client.session")
+	}
+	// provenance of session variables: True = holds the previous session (result of get),
+	// False = holds a new session; the variable assigned from get may later be reused for the new one
+	provKey := func(x ast.Expr) string {
+		if id, ok := ast.Unparen(x).(*ast.Ident); ok && c16Obj(f, id) != nil {
+			return "ev:c16prov:" + f.Render(id)
+		}
+		return ""
+	}
+	provOf := func(st *flow.State, x ast.Expr) flow.Val {
+		x = ast.Unparen(x)
+		if call, ok := x.(*ast.CallExpr); ok {
+			switch {
+			case e.callTo(f, call, newF):
+				return flow.False
+			case e.callTo(f, call, getF):
+				return flow.True
+			}
+			return flow.Unknown
+		}
+		if k := provKey(x); k != "" {
+			if v := st.Get(k); v != flow.Unknown {
+				return v
+			}
+			if isNewExpr(x) { // single-assignment local never seen assigned on this path
+				return flow.False
+			}
+		}
+		return flow.Unknown
+	}
+	mirror := func(k string) string { return "ev:c16atom:" + k }
+	allAtoms := append(append(append([]string{}, aKeys...), bKey), cKeys...)
 	res := analyze(c, f, flow.Config{
 		NoHavoc: true,
+		AfterAssume: func(st *flow.State, cond ast.Expr, outcome bool) {
+			// remember the atoms as decided: the variable holding the previous session may be reassigned
+			for _, k := range allAtoms {
+				if v := st.Get(k); v != flow.Unknown {
+					st.Set(mirror(k), v)
+				}
+			}
+		},
 		OnNode: func(st *flow.State, n ast.Node) {
 			as, ok := n.(*ast.AssignStmt)
 			if !ok || len(as.Lhs) != len(as.Rhs) {
 				return
 			}
 			for i, l := range as.Lhs {
+				if k := provKey(l); k != "" {
+					st.Set(k, provOf(st, as.Rhs[i]))
+				}
 				if !c16Sel(f, l, e.sessionF) {
 					continue
 				}
 				st.Set(evReuse, flow.False)
 				st.Set(evNew, flow.False)
 				st.Set(evOther, flow.False)
-				switch {
-				case c16Obj(f, as.Rhs[i]) == prevObj:
+				switch provOf(st, as.Rhs[i]) {
+				case flow.True:
 					st.Set(evReuse, flow.True)
-				case isNewExpr(as.Rhs[i]):
+				case flow.False:
 					st.Set(evNew, flow.True)
 				default:
 					st.Set(evOther, flow.True)
@@ -466,10 +681,10 @@ func c16SetSession(e *c16Env) {
 			}
 		},
 		OnCall: func(st *flow.State, call *ast.CallExpr, callee types.Object, deferred bool) {
-			if calleeIs(f, call, "(*"+mq+".Session).close") && c16Obj(f, c16Recv(call)) == prevObj {
+			if c16Is(f, call, "(*"+mq+".Session).close") && c16Obj(f, c16Recv(call)) == prevObj && provOf(st, c16Recv(call)) == flow.True {
 				st.Set(evClosed, flow.True)
 			}
-			if calleeIs(f, call, "(*"+mq+".TopicManager).unsubscribe") && len(call.Args) == 2 && prevTopics[c16Obj(f, call.Args[0])] && e.isCid(f, call.Args[1], 0) {
+			if c16Is(f, call, "(*"+mq+".TopicManager).unsubscribe") && len(call.Args) == 2 && prevTopics[c16Obj(f, call.Args[0])] && e.isCid(f, call.Args[1], 0) {
 				st.Set(evUnsub, flow.True)
 			}
 		},
@@ -489,9 +704,33 @@ func c16SetSession(e *c16Env) {
 		}
 		exits++
 		st := ex.State
-		a, b, cc := c16First(st, aKeys), st.Get(bKey), c16First(st, cKeys)
+		atom := func(keys []string) flow.Val {
+			for _, k := range keys {
+				if v := st.Get(mirror(k)); v != flow.Unknown {
+					return v
+				}
+			}
+			return c16First(st, keys)
+		}
+		a, b, cc := atom(aKeys), atom([]string{bKey}), atom(cKeys)
+		reuse, isNew := st.Is(evReuse, flow.True), st.Is(evNew, flow.True)
+		if returnsSession && !reuse && !isNew && !st.Is(evOther, flow.True) {
+			// the chooser hands its choice back to the caller, which assigns client.session
+			var val ast.Expr
+			if r := ex.Ret(); r != nil && len(r.Results) == 1 {
+				val = r.Results[0]
+			} else if namedResult != nil {
+				val = namedResult // bare return of a named result
+			}
+			switch provOf(st, val) {
+			case flow.True:
+				reuse = true
+			case flow.False:
+				isNew = true
+			}
+		}
 		switch {
-		case st.Is(evReuse, flow.True):
+		case reuse:
 			reuseExits++
 			switch {
 			case a != flow.False && badReuse == nil:
@@ -507,7 +746,7 @@ func c16SetSession(e *c16Env) {
 			if st.Is(evUnsub, flow.True) && badUnsub == nil {
 				badUnsub = &verdict{st, "the subscriptions of the session that is reused are removed from the topic manager"}
 			}
-		case st.Is(evNew, flow.True):
+		case isNew:
 			newExits++
 			if a != flow.True && b != flow.True && cc != flow.True && badNew == nil {
 				badNew = &verdict{st, "a new session replaces the previous one although none of (cleanSession requested, no previous session, previous session clean) is established: a client reconnecting with cleanSession=false loses its subscriptions"}
@@ -566,10 +805,10 @@ func c16TakeoverTearsDownOld(e *c16Env) bool {
 	var reaches func(g *flow.Func, depth int) bool
 	reaches = func(g *flow.Func, depth int) bool {
 		for _, call := range calls(g.Body, false) {
-			if calleeIs(g, call, "(*"+mq+".TopicManager).unsubscribe") {
+			if c16Is(g, call, "(*"+mq+".TopicManager).unsubscribe") {
 				return true
 			}
-			if fo, ok := g.Callee(call).(*types.Func); ok && depth < 3 {
+			if fo, ok := c16FnOK(g, call); ok && depth < 3 {
 				if d := e.decls[fo]; d != nil && reaches(flow.NewFunc(e.pkg, d), depth+1) {
 					return true
 				}
@@ -586,7 +825,7 @@ func c16TakeoverTearsDownOld(e *c16Env) bool {
 		case *ast.GoStmt, *ast.DeferStmt:
 			continue
 		}
-		if fo, ok := f.Callee(call).(*types.Func); ok {
+		if fo, ok := c16FnOK(f, call); ok {
 			if d := e.decls[fo]; d != nil && reaches(flow.NewFunc(e.pkg, d), 1) {
 				return true
 			}
@@ -599,26 +838,38 @@ func c16TakeoverTearsDownOld(e *c16Env) bool {
 
 func c16Resubscribe(e *c16Env) {
 	c := e.c
-	if f := fn(c, mq, "Broker", "handleConn"); f != nil {
-		cons := fname(mq, "Broker", "handleConn")
-		reads := callsTo(f, f.Body, false, "(*"+mq+".Client).readLoop")
+	if f := e.anchor("handleConn"); f != nil {
+		cons := e.fnameOf(f)
+		readF := e.anchor("readLoop")
+		var reads []*ast.CallExpr
+		for _, call := range calls(f.Body, false) {
+			if e.callTo(f, call, readF) {
+				reads = append(reads, call)
+			}
+		}
 		if c.RequireCount("R-C16-2", "readLoop call sites in handleConn", len(reads), 1) {
 			read := reads[0]
-			clientObj := c16Obj(f, c16Root(c16Recv(read)))
-			// topic variables: results of <client>.session.allSubscribes()
+			// the connection: the variable whose read loop is run, and the parameters it is bound to
+			// in the helpers handleConn calls
+			clients := map[types.Object]bool{}
+			if o := c16Obj(f, c16Root(c16Recv(read))); o != nil {
+				clients[o] = true
+			}
+			e.bindParams(f, clients, 3)
+			// topic variables: results of <client>.session.allSubscribes(), anywhere in the reach
 			var topicsID, qossID *ast.Ident
 			var load *ast.CallExpr
-			ast.Inspect(f.Body, func(n ast.Node) bool {
+			inspectReach(f, 3, func(g *flow.Func, n ast.Node) bool {
 				as, ok := n.(*ast.AssignStmt)
 				if !ok || len(as.Rhs) != 1 || len(as.Lhs) < 2 {
 					return true
 				}
 				call, ok := ast.Unparen(as.Rhs[0]).(*ast.CallExpr)
-				if !ok || !calleeIs(f, call, "(*"+mq+".Session).allSubscribes") {
+				if !ok || !c16Is(g, call, "(*"+mq+".Session).allSubscribes") {
 					return true
 				}
 				recv := c16Recv(call)
-				if c16Sel(f, recv, e.sessionF) && clientObj != nil && c16Obj(f, c16Root(recv)) == clientObj {
+				if c16Sel(g, recv, e.sessionF) && clients[c16Obj(g, c16Root(recv))] {
 					load = call
 					topicsID, _ = as.Lhs[0].(*ast.Ident)
 					qossID, _ = as.Lhs[1].(*ast.Ident)
@@ -627,8 +878,8 @@ func c16Resubscribe(e *c16Env) {
 			})
 			tObj, qObj := c16Obj(f, topicsID), c16Obj(f, qossID)
 			isResub := func(call *ast.CallExpr) bool {
-				return calleeIs(f, call, "(*"+mq+".TopicManager).subscribe") && len(call.Args) == 3 && tObj != nil &&
-					c16Obj(f, call.Args[0]) == tObj && c16Obj(f, call.Args[1]) == qObj && e.isCid(f, call.Args[2], 0)
+				return c16Is(f, call, "(*"+mq+".TopicManager).subscribe") && len(call.Args) == 3 && tObj != nil &&
+					c16Obj(f, call.Args[0]) == tObj && c16Obj(f, call.Args[1]) == qObj && e.isCidReach(f, call.Args[2])
 			}
 			var emptyT, emptyF, cleanKeys []string // facts meaning "no topics to resubscribe"
 			if topicsID != nil {
@@ -636,11 +887,11 @@ func c16Resubscribe(e *c16Env) {
 				emptyF = []string{"lt:0<" + lenR}
 				emptyT = []string{"eq:" + lenR + "==0", "lt:" + lenR + "<1", f.NilKey(topicsID)}
 			}
-			ast.Inspect(f.Body, func(n ast.Node) bool {
+			inspectReach(f, 3, func(g *flow.Func, n ast.Node) bool {
 				if x, ok := n.(*ast.SelectorExpr); ok {
-					if s := f.Info.Selections[x]; s != nil {
+					if s := g.Info.Selections[x]; s != nil {
 						if v, ok := s.Obj().(*types.Var); ok && v.IsField() && v.Name() == "CleanSession" && v.Pkg() != nil && v.Pkg().Path() == c16Packets {
-							k, _ := f.Atom(x)
+							k, _ := g.Atom(x)
 							cleanKeys = c16AddKey(cleanKeys, k)
 						}
 					}
@@ -650,6 +901,19 @@ func c16Resubscribe(e *c16Env) {
 			const evSess, evLoaded, evResub = "ev:c16sess", "ev:c16loaded", "ev:c16resub"
 			res := analyze(c, f, flow.Config{
 				NoHavoc: true,
+				Inline: e.inlineWhere(f, func(g *flow.Func, n ast.Node) bool {
+					switch x := n.(type) {
+					case *ast.AssignStmt:
+						for _, l := range x.Lhs {
+							if c16Sel(g, l, e.sessionF) {
+								return true
+							}
+						}
+					case *ast.CallExpr:
+						return c16Is(g, x, "(*"+mq+".Session).allSubscribes", "(*"+mq+".TopicManager).subscribe")
+					}
+					return false
+				}),
 				OnNode: func(st *flow.State, n ast.Node) {
 					if as, ok := n.(*ast.AssignStmt); ok {
 						for _, l := range as.Lhs {
@@ -661,7 +925,7 @@ func c16Resubscribe(e *c16Env) {
 				},
 				OnCall: func(st *flow.State, call *ast.CallExpr, callee types.Object, deferred bool) {
 					switch {
-					case calleeIs(f, call, "(*"+mq+".Broker).setSession"):
+					case c16Is(f, call, "(*"+mq+".Broker).setSession"):
 						st.Set(evSess, flow.True)
 					case call == load:
 						if st.Is(evSess, flow.True) {
@@ -715,10 +979,10 @@ func c16Resubscribe(e *c16Env) {
 	// processSubscribe records accepted subscriptions in the session
 	if f := fn(c, mq, "", "processSubscribe"); f != nil {
 		cons := fname(mq, "", "processSubscribe")
-		subs := callsTo(f, f.Body, false, "(*"+mq+".TopicManager).subscribe")
+		subs := c16CallsTo(f, f.Body, false, "(*"+mq+".TopicManager).subscribe")
 		if c.RequireCount("R-C16-2", "topicMgr.subscribe call sites in processSubscribe", len(subs), 1) {
 			sub := subs[0]
-			recs := callsTo(f, f.Body, false, "(*"+mq+".Session).subscribe")
+			recs := c16CallsTo(f, f.Body, false, "(*"+mq+".Session).subscribe")
 			errKey := ""
 			ast.Inspect(f.Body, func(n ast.Node) bool {
 				if as, ok := n.(*ast.AssignStmt); ok && len(as.Lhs) == 1 && len(as.Rhs) == 1 && ast.Unparen(as.Rhs[0]) == sub {
@@ -731,7 +995,7 @@ func c16Resubscribe(e *c16Env) {
 					"processSubscribe never records the subscription in the client's session: after a reconnect with cleanSession=false there is nothing to resubscribe")
 			} else {
 				isRec := func(call *ast.CallExpr) bool {
-					if !calleeIs(f, call, "(*"+mq+".Session).subscribe") || len(call.Args) != 2 || len(sub.Args) != 3 {
+					if !c16Is(f, call, "(*"+mq+".Session).subscribe") || len(call.Args) != 2 || len(sub.Args) != 3 {
 						return false
 					}
 					return f.Render(call.Args[0]) == f.Render(sub.Args[0]) && f.Render(call.Args[1]) == f.Render(sub.Args[1]) && c16Sel(f, c16Recv(call), e.sessionF)
@@ -760,7 +1024,7 @@ func c16Resubscribe(e *c16Env) {
 					// converse: nothing the topic manager refused is recorded
 					var early *flow.State
 					m := 0
-					for _, call := range callsTo(f, f.Body, false, "(*"+mq+".Session).subscribe") {
+					for _, call := range c16CallsTo(f, f.Body, false, "(*"+mq+".Session).subscribe") {
 						for _, st := range res.At[call] {
 							m++
 							if (errKey == "" || !st.Is(errKey, flow.True)) && early == nil {
@@ -887,7 +1151,7 @@ func (e *c16Env) isRegistryRead(f *flow.Func, x ast.Expr) bool {
 		return true
 	}
 	call, ok := ast.Unparen(x).(*ast.CallExpr)
-	return ok && calleeIs(f, call, "(*"+mq+".Broker).getClient")
+	return ok && c16Is(f, call, "(*"+mq+".Broker).getClient")
 }
 
 func (e *c16Env) brokerLockCall(f *flow.Func, call *ast.CallExpr, callee types.Object) string {
@@ -918,55 +1182,142 @@ func (e *c16Env) brokerLockCall(f *flow.Func, call *ast.CallExpr, callee types.O
 	return ""
 }
 
-func (w *c16Walker) guards(f *flow.Func) *c16Guards {
+// ownerHelpers returns the boolean same-package functions called from f that look the registry
+// up (`func (c *Client) ownsClientID() bool`): the guard analysis interprets them in place and
+// collects its guard atoms from their bodies as well.
+func (w *c16Walker) ownerHelpers(f *flow.Func) ([]*flow.Func, func(*ast.CallExpr, *types.Func) *flow.Func) {
 	e := w.e
-	g := &c16Guards{f: f, env: e}
-	regVars := map[types.Object]*ast.Ident{}
-	ast.Inspect(f.Body, func(n ast.Node) bool {
-		as, ok := n.(*ast.AssignStmt)
-		if !ok || len(as.Rhs) != 1 || !e.isRegistryRead(f, as.Rhs[0]) {
-			return true
-		}
-		if id, ok := as.Lhs[0].(*ast.Ident); ok && c16Obj(f, id) != nil {
-			regVars[c16Obj(f, id)] = id
-			g.absentT = c16AddKey(g.absentT, f.NilKey(id))
-		}
-		if len(as.Lhs) == 2 {
-			if id, ok := as.Lhs[1].(*ast.Ident); ok && c16Obj(f, id) != nil {
-				g.absentF = c16AddKey(g.absentF, f.VarKey(id))
+	byDecl := map[*ast.FuncDecl]*flow.Func{}
+	var list []*flow.Func
+	var collect func(g *flow.Func, depth int)
+	collect = func(g *flow.Func, depth int) {
+		for _, call := range calls(g.Body, false) {
+			fo, ok := c16FnOK(g, call)
+			if !ok {
+				continue
 			}
-		}
-		return true
-	})
-	isReg := func(x ast.Expr) bool { o := c16Obj(f, x); return o != nil && regVars[o] != nil }
-	ast.Inspect(f.Body, func(n ast.Node) bool {
-		switch x := n.(type) {
-		case *ast.BinaryExpr:
-			if x.Op.String() != "==" && x.Op.String() != "!=" {
-				return true
+			d := e.decls[fo]
+			if d == nil || byDecl[d] != nil || d.Type.Results == nil || len(d.Type.Results.List) != 1 {
+				continue
 			}
-			for _, p := range [][2]ast.Expr{{x.X, x.Y}, {x.Y, x.X}} {
-				reg, other := p[0], p[1]
-				if e.isRegistryRead(f, reg) {
-					g.unresolved = true
+			if b, ok := fo.Type().(*types.Signature).Results().At(0).Type().Underlying().(*types.Basic); !ok || b.Info()&types.IsBoolean == 0 {
+				continue
+			}
+			h := flow.NewFunc(e.pkg, d)
+			reads := false
+			ast.Inspect(d.Body, func(n ast.Node) bool {
+				if x, ok := n.(ast.Expr); ok && e.isRegistryRead(h, x) {
+					reads = true
 				}
-				if !isReg(reg) || isReg(other) {
+				return !reads
+			})
+			if !reads && depth >= 1 {
+				continue
+			}
+			if !reads {
+				// a boolean helper that delegates to one that reads the registry
+				sub := false
+				for _, c2 := range calls(d.Body, false) {
+					if fo2, ok := c16FnOK(h, c2); ok && e.decls[fo2] != nil && e.decls[fo2] != d {
+						h2 := flow.NewFunc(e.pkg, e.decls[fo2])
+						ast.Inspect(e.decls[fo2].Body, func(n ast.Node) bool {
+							if x, ok := n.(ast.Expr); ok && e.isRegistryRead(h2, x) {
+								sub = true
+							}
+							return !sub
+						})
+					}
+				}
+				if !sub {
 					continue
 				}
-				if tv, ok := f.Info.Types[other]; ok && tv.Type != nil && c16PtrTo(tv.Type, "Client") {
-					g.idKeys = c16AddKey(g.idKeys, f.EqKey(x.X, x.Y))
+			}
+			byDecl[d] = h
+			list = append(list, h)
+			collect(h, depth+1)
+		}
+	}
+	collect(f, 0)
+	return list, func(call *ast.CallExpr, callee *types.Func) *flow.Func {
+		if callee == nil {
+			return nil
+		}
+		return byDecl[e.decls[callee]]
+	}
+}
+
+func (w *c16Walker) guards(f *flow.Func, entryLocked bool) *c16Guards {
+	e := w.e
+	g := &c16Guards{f: f, env: e}
+	helpers, inline := w.ownerHelpers(f)
+	bodies := append([]*flow.Func{f}, helpers...)
+	regVars := map[types.Object]*ast.Ident{}
+	for _, h := range bodies {
+		ast.Inspect(h.Body, func(n ast.Node) bool {
+			as, ok := n.(*ast.AssignStmt)
+			if !ok || len(as.Rhs) != 1 || !e.isRegistryRead(f, as.Rhs[0]) {
+				return true
+			}
+			if id, ok := as.Lhs[0].(*ast.Ident); ok && c16Obj(f, id) != nil {
+				regVars[c16Obj(f, id)] = id
+				g.absentT = c16AddKey(g.absentT, f.NilKey(id))
+			}
+			if len(as.Lhs) == 2 {
+				if id, ok := as.Lhs[1].(*ast.Ident); ok && c16Obj(f, id) != nil {
+					g.absentF = c16AddKey(g.absentF, f.VarKey(id))
 				}
 			}
-		case *ast.CallExpr:
-			if calleeIs(f, x, "(*"+mq+".Client).disconnected") && isReg(c16Recv(x)) {
-				g.discKeys = c16AddKey(g.discKeys, f.CallKey(x))
+			return true
+		})
+	}
+	isReg := func(x ast.Expr) bool { o := c16Obj(f, x); return o != nil && regVars[o] != nil }
+	for _, h := range bodies {
+		ast.Inspect(h.Body, func(n ast.Node) bool {
+			switch x := n.(type) {
+			case *ast.BinaryExpr:
+				if x.Op.String() != "==" && x.Op.String() != "!=" {
+					return true
+				}
+				for _, p := range [][2]ast.Expr{{x.X, x.Y}, {x.Y, x.X}} {
+					reg, other := p[0], p[1]
+					if e.isRegistryRead(f, reg) {
+						g.unresolved = true
+					}
+					if !isReg(reg) || isReg(other) {
+						continue
+					}
+					if tv, ok := f.Info.Types[other]; ok && tv.Type != nil && c16PtrTo(tv.Type, "Client") {
+						g.idKeys = c16AddKey(g.idKeys, f.EqKey(x.X, x.Y))
+					}
+				}
+			case *ast.CallExpr:
+				if c16Is(f, x, "(*"+mq+".Client).disconnected") && isReg(c16Recv(x)) {
+					g.discKeys = c16AddKey(g.discKeys, f.CallKey(x))
+				}
+			}
+			return true
+		})
+	}
+	for _, h := range bodies {
+		for _, sf := range e.supFacts(h, isReg) {
+			dup := false
+			for _, o := range g.sup {
+				dup = dup || o.key == sf.key
+			}
+			if !dup {
+				g.sup = append(g.sup, sf)
 			}
 		}
-		return true
-	})
-	g.sup = e.supFacts(f, isReg)
+	}
 	g.res = analyze(e.c, f, flow.Config{
 		NoHavoc: true,
+		Inline:  inline,
+		OnBlock: func(st *flow.State, b *cfg.Block) {
+			if entryLocked && !st.Is("ev:c16entry", flow.True) {
+				st.Set("ev:c16entry", flow.True)
+				st.Set(c16Locked, flow.True)
+			}
+		},
 		OnNode: func(st *flow.State, n ast.Node) {
 			if as, ok := n.(*ast.AssignStmt); ok && len(as.Rhs) == 1 && e.isRegistryRead(f, as.Rhs[0]) {
 				if st.Is(c16Locked, flow.True) && e.isClientsLookup(f, as.Rhs[0]) {
@@ -1050,11 +1401,11 @@ func (g *c16Guards) at(call *ast.CallExpr, kind string) (how string, bad *flow.S
 func (w *c16Walker) primitive(f *flow.Func, call *ast.CallExpr) string {
 	e := w.e
 	switch {
-	case calleeIs(f, call, "(*sync.Map).Delete", "(*sync.Map).LoadAndDelete") && c16Sel(f, c16Recv(call), e.sessMapF):
+	case c16Is(f, call, "(*sync.Map).Delete", "(*sync.Map).LoadAndDelete") && c16Sel(f, c16Recv(call), e.sessMapF):
 		return c16OpLive
 	case ifaceMethodCall(f, call, mq, "storage", "delete"):
 		return c16OpStore
-	case calleeIs(f, call, "(*"+mq+".TopicManager).unsubscribe"):
+	case c16Is(f, call, "(*"+mq+".TopicManager).unsubscribe"):
 		return c16OpUnsub
 	case calleeFull(f, call) == "builtin.delete" && len(call.Args) == 2 && c16Sel(f, call.Args[0], e.clientsF):
 		return c16OpUnreg
@@ -1062,11 +1413,11 @@ func (w *c16Walker) primitive(f *flow.Func, call *ast.CallExpr) string {
 	return ""
 }
 
-func (w *c16Walker) visit(f *flow.Func, name, upstream, chain string, depth int) {
+func (w *c16Walker) visit(f *flow.Func, name, upstream, chain string, depth int, entryLocked bool) {
 	if f == nil || depth > 6 {
 		return
 	}
-	key := name + "|" + sprintf("%v", upstream != "")
+	key := name + "|" + sprintf("%v|%v", upstream != "", entryLocked)
 	if w.visited[key] {
 		return
 	}
@@ -1077,7 +1428,7 @@ func (w *c16Walker) visit(f *flow.Func, name, upstream, chain string, depth int)
 			return upstream, nil, ""
 		}
 		if g == nil {
-			g = w.guards(f)
+			g = w.guards(f, entryLocked)
 		}
 		how, bad, why := g.at(call, kind)
 		if g.discRelied {
@@ -1091,11 +1442,12 @@ func (w *c16Walker) visit(f *flow.Func, name, upstream, chain string, depth int)
 		}
 		return how, bad, why
 	}
+	pmCalls := parentMap(f.Body)
 	for _, call := range calls(f.Body, false) {
 		kind := w.primitive(f, call)
 		var decl *ast.FuncDecl
 		if kind == "" {
-			if fo, ok := f.Callee(call).(*types.Func); ok {
+			if fo, ok := c16FnOK(f, call); ok {
 				decl = w.e.decls[fo]
 			}
 			if decl == nil {
@@ -1121,7 +1473,20 @@ func (w *c16Walker) visit(f *flow.Func, name, upstream, chain string, depth int)
 			continue
 		}
 		w.links++
-		w.visit(flow.NewFunc(w.e.pkg, decl), declName(w.e.pkg, decl), how, chain+" → "+name, depth+1)
+		// is the broker lock held at every state reaching this call? (the callee then runs under it)
+		locked := false
+		if how == "" {
+			if g == nil {
+				g = w.guards(f, entryLocked)
+			}
+			if _, async := pmCalls[call].(*ast.GoStmt); !async && g.res != nil && len(g.res.At[call]) > 0 {
+				locked = true
+				for _, st := range g.res.At[call] {
+					locked = locked && st.Is(c16Locked, flow.True)
+				}
+			}
+		}
+		w.visit(flow.NewFunc(w.e.pkg, decl), declName(w.e.pkg, decl), how, chain+" → "+name, depth+1, locked)
 	}
 	// nested function literals: deferred / directly called ones inherit the context, others do not
 	pm := parentMap(f.Body)
@@ -1145,7 +1510,7 @@ func (w *c16Walker) visit(f *flow.Func, name, upstream, chain string, depth int)
 				up = upstream
 			}
 		}
-		w.visit(f.Lit(l), name+suffix, up, chain+" → "+name, depth+1)
+		w.visit(f.Lit(l), name+suffix, up, chain+" → "+name, depth+1, false)
 	}
 }
 
@@ -1154,9 +1519,9 @@ func c16Teardown(e *c16Env) {
 	w := &c16Walker{e: e, visited: map[string]bool{}, ops: map[string]*c16Op{}}
 	roots := 0
 	for _, r := range []string{"readLoop", "writeLoop"} {
-		if f := fn(c, mq, "Client", r); f != nil {
+		if f := e.anchor(r); f != nil {
 			roots++
-			w.visit(f, fname(mq, "Client", r), "", "connection teardown", 0)
+			w.visit(f, e.fnameOf(f), "", "connection teardown", 0, false)
 		}
 	}
 	if !c.RequireCount("R-C16-3", "teardown roots (Client.readLoop, Client.writeLoop)", roots, 2) {
@@ -1209,7 +1574,7 @@ func c16AdminDelete(e *c16Env) {
 				vObj := c16Obj(f, rng.Value)
 				why = "the deleted key is not sessionStoreKey(<listed session>.SessionID)"
 				if len(del.Args) == 1 {
-					if kc, isC := ast.Unparen(del.Args[0]).(*ast.CallExpr); isC && calleeIs(f, kc, mq+".sessionStoreKey") && len(kc.Args) == 1 &&
+					if kc, isC := ast.Unparen(del.Args[0]).(*ast.CallExpr); isC && c16Is(f, kc, mq+".sessionStoreKey") && len(kc.Args) == 1 &&
 						c16Sel(f, kc.Args[0], e.httpIDF) && vObj != nil && c16Obj(f, c16Root(kc.Args[0])) == vObj {
 						ok = true
 					}
@@ -1226,7 +1591,7 @@ func c16AdminDelete(e *c16Env) {
 			recv = ""
 		}
 		if f := fn(c, mq, recv, starter); f != nil {
-			ws := callsTo(f, f.Body, false, "(*"+mq+".Broker).watchDelete")
+			ws := c16CallsTo(f, f.Body, false, "(*"+mq+".Broker).watchDelete")
 			ok := false
 			for _, call := range ws {
 				if len(call.Args) >= 1 {
@@ -1250,7 +1615,7 @@ func c16AdminDelete(e *c16Env) {
 	// (c) watchDelete
 	if f := fn(c, mq, "Broker", "watchDelete"); f != nil {
 		cons := fname(mq, "Broker", "watchDelete")
-		dels := callsTo(f, f.Body, false, "(*"+mq+".Broker).deleteSession")
+		dels := c16CallsTo(f, f.Body, false, "(*"+mq+".Broker).deleteSession")
 		if c.RequireCount("R-C16-4", "deleteSession call sites in watchDelete", len(dels), 1) {
 			del := dels[0]
 			var rng *ast.RangeStmt
@@ -1342,7 +1707,7 @@ func c16AdminDelete(e *c16Env) {
 						if call == del {
 							st.Set(evDel, flow.True)
 						}
-						if calleeIs(f, call, "(*"+mq+".Broker).reconnectWatcher") {
+						if c16Is(f, call, "(*"+mq+".Broker).reconnectWatcher") {
 							st.Set(evRe, flow.True)
 						}
 					},
@@ -1401,7 +1766,7 @@ func c16AdminDelete(e *c16Env) {
 			var keyExpr ast.Expr
 			if e.isClientsLookup(f, r) {
 				keyExpr = r.(*ast.IndexExpr).Index
-			} else if call, isC := r.(*ast.CallExpr); isC && calleeIs(f, call, "(*"+mq+".Broker).getClient") && len(call.Args) == 1 {
+			} else if call, isC := r.(*ast.CallExpr); isC && c16Is(f, call, "(*"+mq+".Broker).getClient") && len(call.Args) == 1 {
 				keyExpr = call.Args[0]
 			} else {
 				return true
@@ -1423,10 +1788,10 @@ func c16AdminDelete(e *c16Env) {
 		})
 		var closes []*ast.CallExpr
 		for _, call := range calls(f.Body, false) {
-			if calleeIs(f, call, "(*"+mq+".Client).close", "(*"+mq+".Client).closeAndDelSession") && regVars[c16Obj(f, c16Recv(call))] {
+			if c16Is(f, call, "(*"+mq+".Client).close", "(*"+mq+".Client).closeAndDelSession") && regVars[c16Obj(f, c16Recv(call))] {
 				closes = append(closes, call)
 			}
-			if calleeIs(f, call, "(*"+mq+".Client).disconnected") && regVars[c16Obj(f, c16Recv(call))] {
+			if c16Is(f, call, "(*"+mq+".Client).disconnected") && regVars[c16Obj(f, c16Recv(call))] {
 				disc = c16AddKey(disc, f.CallKey(call))
 			}
 		}
